@@ -40,7 +40,7 @@ def main():
             rec["checks"] = {}
             for c in checks:
                 t = time.time()
-                rcc, outc = sh("cd /verif && MUDSLIDE_SRC=%s ./check %s --tier quick" % (cp, c))
+                rcc, outc = sh("cd /verif && VERIF_OUT=%s/_vout VERIF_EVIDENCE=%s/_vevid VERIF_NPROC=4 MUDSLIDE_SRC=%s ./check %s --tier quick" % (cp, cp, cp, c))
                 vl = [l for l in outc.splitlines() if l.startswith("VIOLATION")]
                 rec["checks"][c] = dict(rc=rcc, violation=(vl[0][:300] if vl else None), secs=round(time.time() - t, 1))
         finally:
